@@ -404,6 +404,11 @@ func (group *Group) delIn() {
 	group.stopRecordFlvIfNeeded()
 	group.stopRecordMpegtsIfNeeded()
 
+	if group.customizePubSession != nil {
+		// 注意，业务方可能还持有这个对象，标记为已销毁，之后再喂入的数据不再进入group
+		group.customizePubSession.Dispose()
+	}
+
 	group.rtmpPubSession = nil
 	group.rtspPubSession = nil
 	group.customizePubSession = nil
